@@ -12,15 +12,20 @@ ASSUMPTIONS = ['exact real arithmetic; loss of orthogonality with cond(A) is out
 
 
 class QR(Lin):
-    def __init__(s, T, n, strat='MGSR', orth=True):
+    def __init__(s, T, n, strat='MGSR', orth=True, tiny=False):
         a = Buf('a', T, n * n); q = Buf('q', T, n * n, 'out'); r = Buf('r', T, n * n, 'out'); tt = f'Tensor<{T},{n},{n}>'
         piv = strat == 'MGSRPiv'; args = [a, q, r]
         pd = f'Tensor<size_t,{n}> P;' if piv else ''; pc = f'for(int q_=0;q_<{n};++q_) p[q_]=(long)P.data()[q_];' if piv else ''
         if piv: args.append(Buf('p', 'long', n, 'out'))
         k = f'{tt} A(a), Q, R; {pd} qr<QRCompType::{strat}>(A,Q,R{",P" if piv else ""}); ' + copy_out('Q', 'q', n * n) + ' ' + copy_out('R', 'r', n * n) + ' ' + pc
-        Lin.__init__(s, f'qr_{SHORT[T]}_{n}_{strat}', T, args, k, f'qr<{strat}> {tt}')
+        Lin.__init__(s, f'qr_{SHORT[T]}_{n}_{strat}{"_tiny" if tiny else ""}', T, args, k, f'qr<{strat}> {tt}' + (' with |a_ij| <= 2^-70' if tiny else ''))
         s.n = n; s.orth = orth; s.timeout = 30; s.piv = piv
         if piv: s.max_paths = 60
+        if tiny:
+            # small-norm operands: the bounds of the property are relative to ||A||, so nothing in the factorisation may compare
+            # an intermediate against an absolute threshold
+            lim = z3.Q(1, 2 ** 70)
+            s.pre_fn = lambda V: [c for i in range(n * n) for c in (V.el('a', i) <= lim, V.el('a', i) >= -lim)]
 
     def path_obligations(s, mod, kp, stats):
         if kp.status != 'ok': return [Obl('status', z3.BoolVal(False), kp.pc, note='path ended with ' + kp.status)]
@@ -52,7 +57,7 @@ class QR(Lin):
             if sorted(P.tolist()) != list(range(n)): return 'P is not a bijection'
             A = A[P, :]
         if np.abs(np.tril(R, -1)).max() != 0: bad.append('R not exactly upper triangular')
-        sc = max(1.0, np.abs(A).max())
+        sc = np.abs(A).max() if np.abs(A).max() > 1e-200 else 1.0      # the property's bound is relative to ||A||
         if np.abs(Q @ R - A).max() > s.tol() * 100 * sc: bad.append(f'|Q*R-A| = {np.abs(Q @ R - A).max():.3g}')
         if s.orth and np.abs(Q.T @ Q - np.eye(n)).max() > 1e-3: bad.append(f'|QtQ-I| = {np.abs(Q.T @ Q - np.eye(n)).max():.3g}')
         return '; '.join(bad) or None
@@ -83,6 +88,8 @@ def cases(tier, cfg, seed):
             out.append(QR(T, n, 'MGSR', orth=(n <= (2 if tier == 'quick' else 4))))
         for n in ((2,) if tier == 'quick' else (2, 3)): out.append(DetQR(T, n))
         for n in ((2,) if tier == 'quick' else (2, 3)): out.append(QR(T, n, 'MGSRPiv', orth=(n <= 2)))
+        out.append(QR(T, 2, 'MGSR', orth=True, tiny=True))
+        if tier != 'quick': out.append(QR(T, 3, 'MGSR', orth=False, tiny=True))
     if tier == 'quick': out.append(QR('float', 3, 'MGSR', orth=False))
     return out
 
